@@ -102,6 +102,9 @@ func (f *Fetcher) FetchData(ctx context.Context) (Data, error) {
 	if len(f.data.Cookie) == 0 {
 		err := f.exchangeKeys(ctx)
 		if err != nil {
+			// a failed exchange must not leave cookies (or stale keys) behind:
+			// the next call has to run a complete new exchange
+			f.data = Data{}
 			return Data{}, err
 		}
 	}
